@@ -2174,9 +2174,11 @@ namespace Clipper2Lib {
         int n = 0;
         for (Active* a = actives_; a; a = a->next_in_ael, ++n)
         {
-          const long long v[14] = { y, a->bot.x, a->bot.y, a->top.x, a->top.y, a->curr_x, a->wind_dx,
+          const long long v[16] = { y, a->bot.x, a->bot.y, a->top.x, a->top.y, a->curr_x, a->wind_dx,
             a->wind_cnt, a->wind_cnt2, static_cast<long long>(GetPolyType(*a)), IsOpen(*a),
-            a->outrec != nullptr, static_cast<long long>(cliptype_), static_cast<long long>(fillrule_) };
+            a->outrec != nullptr, static_cast<long long>(cliptype_), static_cast<long long>(fillrule_),
+            a->outrec ? static_cast<long long>(a->outrec->idx) : -1,
+            a->outrec ? (a->outrec->front_edge == a ? 1 : (a->outrec->back_edge == a ? 2 : 0)) : 0 };
           verif::ael_fn(n, v);
         }
         verif::ael_fn(-1, nullptr);
